@@ -388,9 +388,11 @@ pub fn name_alphabet() -> Vec<&'static str> {
     vec![
         "a", "ab", "", " ", "\u{e9}", "\u{1F600}", "x\"y", "x\\y", "iss", "exp", "cnf", "_sdx", "_s", "..", "....", "a.b",
         "a[0]", "a,b", "a\":b", "[0]", "$", "~", "\u{0}", "\u{1f}", "\u{8}\u{c}", "a\nb", "\t", "\u{7f}", "\u{80}", "\u{2028}",
+        // names that some API might treat as magic
+        "*", "**", "?", "@", "#", "%", "+", "-", "_", "__proto__", "true", "false", "null", "0", "1", "[]", "{}", "all", "a ", " a", "a\u{a0}", "A",
     ]
 }
 /// Member names usable under Custom (free of '.' and '[' and non-empty).
 pub fn custom_name_alphabet() -> Vec<&'static str> {
-    vec!["a", "ab", "\u{e9}", "x y", "\u{1F600}", "x\"y", "$", "0", "]"]
+    vec!["a", "ab", "\u{e9}", "x y", "\u{1F600}", "x\"y", "$", "0", "]", "*", "?", "@", "true", "null", "a ", " a", "a\u{a0}", "a\t", "A", "-", "_"]
 }
